@@ -43,6 +43,13 @@ Example C13_nonvacuous :
   first_occ [5; 3; 5; 7; 3] = [5; 3; 7] /\ NoDup (map ab_id [mkAbind 5 [] [] []; mkAbind 3 [] [] []]).
 Proof. split; [reflexivity|]. repeat constructor; simpl; intuition lia. Qed.
 
+(* ---- app stage: the executable judgement of coq/Check is sound for the model on every scenario of the profile, and transfers
+   to every trace that agrees with the model's run ---- *)
+From BEI Require Check.C13c Proofs.JudgeC13P.
+Theorem C13_app_judgement_sound_upto6 : forall sc, JudgeC13P.profile_C13b sc = true -> C13c.ok (sc, App.trace (App.run sc)) = (if C13c.accumulate_ok sc (App.run sc) && Z.eqb (Lib.first_fail (C18a.judge_missed (C18a.mod_sites sc) C18a.empty_out (Frame.s_steps sc) (App.run sc))) 0 then 0 else 6)%Z.
+Proof. exact JudgeC13P.C13_app_judgement_sound_upto6. Qed.
+
+
 Print Assumptions C13_bind_order.
 Print Assumptions C13_rebind_extends.
 Print Assumptions C13_one_evaluation_per_binding.
@@ -50,3 +57,4 @@ Print Assumptions C13_evaluation_table.
 Print Assumptions C13_visibility.
 Print Assumptions C13_chord.
 Print Assumptions C13_block_by.
+Print Assumptions C13_app_judgement_sound_upto6.
